@@ -5,7 +5,12 @@ I64_MIN, I64_MAX = -(2 ** 63), 2 ** 63 - 1
 
 SAFE_ALPHA = 'abxyz01_-. /'
 TEXT_SMALL = st.text(alphabet=SAFE_ALPHA, max_size=6)
-TEXT_FULL = st.text(alphabet=st.characters(blacklist_categories=('Cs',)), max_size=12)
+# (strings that spell JSON / Python tokens are ordinary strings)
+TOKEN_WORDS = st.sampled_from(['NaN', 'Infinity', '-Infinity', 'null', 'true', 'false', 'None', 'ratio is NaN here',
+                               'to Infinity and', '1e999', '0x10', '01'])
+TEXT_FULL = st.one_of(st.text(alphabet=st.characters(blacklist_categories=('Cs',)), max_size=12),
+                      st.text(alphabet=st.characters(blacklist_categories=('Cs',)), max_size=12),
+                      st.text(alphabet=st.characters(blacklist_categories=('Cs',)), max_size=12), TOKEN_WORDS)
 
 boundary_ints = st.sampled_from([0, 1, -1, 2 ** 31 - 1, -(2 ** 31), 2 ** 53, 2 ** 53 + 1, I64_MAX, I64_MIN, 255, 256])
 ints = st.one_of(st.integers(-5, 5), st.integers(I64_MIN, I64_MAX), boundary_ints)
